@@ -8,7 +8,7 @@ from vlib import Case, hx, unhx
 PROP = "C13"
 PROOF_FILES = ["Properties/C13.v"]
 RULE = ("byte strings through ComputeCRC: all strings of length 0..2 (65 793, complete); single-bit strings (one bit set, "
-        "rest zero) and all-zero strings; random strings up to 4 KiB; known-answer vectors; residue calls; a case is "
+        "rest zero) and all-zero strings; one random string of every length 0..1024; random strings up to 4 KiB and a few up to 64 KiB; known-answer vectors; residue calls; a case is "
         "non-trivial when it is a distinct request line (every byte string is inside the property's domain)")
 EXHAUSTIVE = True
 EXHAUSTIVE_NOTE = ("lengths 0..2 are enumerated completely on every run. Single-bit strings: quick = every bit position for "
@@ -98,6 +98,11 @@ def gen(rng, tier):
         for L in (32, 64, 128, 188, 256, 512, 1021, 1024):
             for p in sorted({0, 1, 7, 8, 8 * L - 9, 8 * L - 8, 8 * L - 1} | {rng.randrange(8 * L) for _ in range(57)}):
                 crc(single(L, p), "single-bit")
+    # 3b. every length 0..1024 at least once with random content (section sizes), and a few long strings beyond 4 KiB
+    for L in range(0, 1025):
+        crc(bytes(rng.randrange(256) for _ in range(L)), "every-length")
+    for L in ((4097, 8192, 65537) if not thorough else (4097, 4098, 8191, 8192, 16385, 65535, 65536, 65537, 262145)):
+        crc(bytes(rng.randrange(256) for _ in range(L)), "long")
     # 4. random strings up to 4 KiB (sizes biased to section-like lengths)
     n = 10000 if thorough else 400
     for i in range(n):
